@@ -240,3 +240,29 @@ Section States.
     - rewrite E1, E2. exact I.
   Qed.
 End States.
+
+(* ---- the step-by-step relation, from "who can see the layering block" ------------------------------
+   [sem b] : what the steps do when the configuration has (b = true) / has not a layering block.
+   A step that cannot see the block does the same in both; every step takes related states to related
+   outcomes; only for the steps that can see it and may change the filesystem is a relation between
+   the two behaviours asked for. *)
+Section Readers.
+  Variable S : Type.
+  Variable R : S -> S -> Prop.
+  Variable readers : list string.
+  Variable sem : bool -> string -> S -> res S.
+  Hypothesis Hblind : forall n, in_list n readers = false -> sem true n = sem false n.
+  Hypothesis Hmono : forall n s s', R s s' -> res_rel S R (sem false n s) (sem false n s').
+  Hypothesis Hreader : forall n s s', in_list n readers = true -> in_list n pure_calls = false ->
+    R s s' -> res_rel S R (sem false n s) (sem true n s').
+  Hypothesis Hpure : forall b n s, in_list n pure_calls = true -> sem b n s = Ok s.
+
+  Lemma rel_from_readers : forall n s s', R s s' -> res_rel S R (sem false n s) (sem true n s').
+  Proof.
+    intros n s s' H. destruct (in_list n readers) eqn:Er.
+    - destruct (in_list n pure_calls) eqn:Ep.
+      + rewrite (Hpure false n s Ep), (Hpure true n s' Ep). exact H.
+      + exact (Hreader n s s' Er Ep H).
+    - rewrite (Hblind n Er). exact (Hmono n s s' H).
+  Qed.
+End Readers.
